@@ -88,6 +88,101 @@ def job(j):
         if miss: bad.append('-ra image differs from the source on primary metadata blocks %s' % miss[:8])
     return (cid, 'bad' if bad else 'ok', bad, n)
 
+def data_extents(path):
+    """(start, end) byte ranges that hold data in a sparse file"""
+    out = []; fd = os.open(path, os.O_RDONLY)
+    try:
+        size = os.fstat(fd).st_size; pos = 0
+        while pos < size:
+            try: a = os.lseek(fd, pos, os.SEEK_DATA)
+            except OSError: break
+            b = os.lseek(fd, a, os.SEEK_HOLE)
+            out.append((a, b)); pos = b
+    finally:
+        os.close(fd)
+    return out
+
+def sparse_diff(a, b, bs):
+    """block numbers where two sparse files differ (holes and the part beyond the shorter file read as zeros)"""
+    ext = sorted(data_extents(a) + data_extents(b)); diff = []
+    fa = open(a, 'rb'); fb = open(b, 'rb'); done = 0
+    for s0, e0 in ext:
+        s0 = max(s0, done) // bs * bs
+        while s0 < e0:
+            n = min(1 << 22, e0 - s0)
+            fa.seek(s0); x = fa.read(n); fb.seek(s0); y = fb.read(n)
+            x += b'\0' * (n - len(x)); y += b'\0' * (n - len(y))
+            if x != y: diff += [(s0 + i) // bs for i in range(0, n, bs) if x[i:i + bs] != y[i:i + bs]]
+            s0 += n
+        done = max(done, e0)
+    return diff
+
+BIG = {'big4g': (['-t', 'ext4', '-b', '4096', '-O', '^flex_bg,^has_journal,^resize_inode,metadata_csum,64bit', '-N', '2048'], 1114112),
+       'big4g_ext2_1k': (['-t', 'ext2', '-b', '1024', '-O', '^resize_inode,sparse_super', '-N', '8192', '-g', '8192'], 4194304 + 8192 * 3 + 77),
+       'big4g_bigalloc': (['-t', 'ext4', '-b', '4096', '-C', '65536', '-O', 'bigalloc,^flex_bg,^has_journal,^resize_inode,metadata_csum', '-N', '2048'], 1114112 + 4096)}
+def job_big(j):
+    """filesystems whose metadata lies beyond byte offsets 2^31 and 2^32 (sparse scratch files; group bitmaps and inode tables of the last groups sit above 4 GiB)"""
+    import mmap
+    cid, _, kind = j
+    p = fsweep.worker_path('c19big'); d = os.path.dirname(p)
+    raw = os.path.join(d, 'bigraw.img'); qc = os.path.join(d, 'bigq.qcow2'); q2r = os.path.join(d, 'bigq2r.img')
+    for f in (p, raw, qc, q2r):
+        if os.path.exists(f): os.unlink(f)
+    opts, blocks = BIG[kind]
+    rc, out = run([MKE2FS, '-q', '-F', '-E', 'lazy_itable_init=1,nodiscard', '-U', fsweep_uuid] + opts + [p, str(blocks)], timeout=600)
+    if rc != 0: return (cid, 'skip', 'mke2fs refused: %s' % out[-100:], 0)
+    run([DEBUGFS, '-w', '-R', 'write %s /f0' % os.path.join(ROOT, 'd', 'f3'), p], timeout=600)
+    bad = []; n = 0
+    try:
+        f = open(p, 'rb'); m = mmap.mmap(f.fileno(), 0, access=mmap.ACCESS_READ)
+        im = Image(m); M = layout.metadata_blocks(im); bs = im.bs
+        for g in range(1, im.groups): M -= set(im.group_overhead_blocks(g))
+        h0 = sha(p)
+        if max(M) * bs < (1 << 32): return (cid, 'skip', 'no metadata above 4 GiB', 0)
+        def cmpM(other, label):
+            with open(other, 'rb') as fo:
+                miss = []
+                for b in sorted(M):
+                    fo.seek(b * bs); x = fo.read(bs); x += b'\0' * (bs - len(x))
+                    if x != m[b * bs:(b + 1) * bs]: miss.append(b)
+            if miss: bad.append('%s differs from the source on metadata blocks %s' % (label, miss[:8]))
+        rc, out = run([E2IMAGE, '-r', p, raw], timeout=600); n += 1
+        if rc != 0: bad.append('e2image -r exit %s: %s' % (rc, out[-200:]))
+        else:
+            cmpM(raw, 'raw image')
+            a = run([E2FSCK, '-fn', p], timeout=600); b = run([E2FSCK, '-fn', raw], timeout=600)
+            if a[0] != b[0] or strip(a[1], p) != strip(b[1], raw): bad.append('e2fsck -fn differs between source and raw image: %s / %s' % (a[0], b[0]))
+        rc, out = run([E2IMAGE, '-Q', p, qc], timeout=600); n += 1
+        if rc != 0: bad.append('e2image -Q exit %s: %s' % (rc, out[-200:]))
+        else:
+            rc, out = run([E2IMAGE, '-r', qc, q2r], timeout=600); n += 1
+            if rc != 0: bad.append('qcow2 -> raw conversion exit %s: %s' % (rc, out[-200:]))
+            else:
+                cmpM(q2r, 'qcow2->raw image')
+                if os.path.exists(raw):
+                    df = sparse_diff(raw, q2r, bs)
+                    if df: bad.append('qcow2->raw differs from the direct raw image at blocks %s' % df[:8])
+                a = run([DUMPE2FS, p], timeout=600); b = run([DUMPE2FS, q2r], timeout=600)
+                if a[0] != b[0] or strip(a[1], p) != strip(b[1], q2r): bad.append('dumpe2fs differs between source and qcow2->raw image')
+        if sha(p) != h0: bad.append('e2image modified its source')
+        m.close(); f.close()
+    except Exception as e:
+        return (cid, 'skip', 'big source not readable by xck: %r' % e, 0)
+    finally:
+        for x in (p, raw, qc, q2r):
+            if os.path.exists(x): os.unlink(x)
+    return (cid, 'bad' if bad else 'ok', bad, n)
+
+def sha(path):
+    import hashlib
+    h = hashlib.sha256()
+    for a, b in data_extents(path):
+        with open(path, 'rb') as f:
+            f.seek(a)
+            while a < b:
+                x = f.read(min(1 << 22, b - a)); h.update(b'%d:' % a); h.update(x); a += len(x)
+    return h.hexdigest()
+
 def main(tier, only=None):
     global E2IMAGE, E2FSCK, DUMPE2FS, MKE2FS, ROOT, DEBUGFS
     ck = Check('C19', tier, 'model_checking')
@@ -103,7 +198,10 @@ def main(tier, only=None):
         lo = 1560 if kind == 'ext4csum' else 420
         for size in (range(lo, lo + 1100) if not quick else list(range(lo, lo + 1100, 3)) + [k * 128 + d for k in range(2, 19) for d in (-1, 0, 1)] + [k * 512 + d for k in range(1, 5) for d in (-1, 0, 1)]):
             if size >= lo: jobs.append(('size/%s/%d' % (kind, size), 'size', (kind, size)))
+    bigjobs = [('bigoff/%s' % k, 'big', k) for k in (['big4g'] if quick else list(BIG))]
+    bigres = pmap(job_big, bigjobs, chunksize=1)
     res = pmap(job, jobs, chunksize=2)
+    res = bigres + res; jobs = bigjobs + jobs
     runs = ok = skip = 0
     skipwhy = {}
     for (cid, st, bad, n), j in zip(res, jobs):
@@ -114,7 +212,7 @@ def main(tier, only=None):
             ck.violation('%s :: %s' % (cid, b[:60]), {'case': cid, 'what': b})
     ck.add(evaluations=runs, distinct_nontrivial=ok, states=len(jobs), transitions=runs, traces_validated_against_impl=runs,
            rule='source = every corpus image + a populated filesystem of every size in a 1100-block window (quick: every 3rd size plus +-1 around every multiple of 128 and 512 blocks, i.e. qcow2 L2-table and refcount-block boundaries); '
-                'every source first gets external attribute blocks on its fast symlinks, device nodes, fifos and small files (debugfs ea_set); per source: e2image -r, -Q, -Q then -r, -ra; oracle: metadata block set (computed by xck) byte-identical, e2fsck -fn and dumpe2fs outputs identical, qcow2->raw == raw, -ra tree identical, source unchanged',
+                'every source first gets external attribute blocks on its fast symlinks, device nodes, fifos and small files (debugfs ea_set); plus sparse filesystems whose group metadata lies above byte offsets 2^31 and 2^32 (4k blocks without flex_bg; thorough: also 1k-block ext2 and bigalloc); per source: e2image -r, -Q, -Q then -r, -ra; oracle: metadata block set (computed by xck) byte-identical, e2fsck -fn and dumpe2fs outputs identical, qcow2->raw == raw, -ra tree identical, source unchanged',
            samples=[jobs[0][0], jobs[20][0], jobs[-1][0]])
     ck.cov['sources_skipped'] = skip; ck.cov['skip_reasons'] = skipwhy
     ck.assumptions += ['size-sweep sources are made with the tree\'s own mke2fs -d; they are only used differentially (source vs image)']
